@@ -39,16 +39,18 @@ theorem term_tables_special :
   decide
 
 theorem tbl_none {α : Type} (tbl : List (Int × α)) (h : (tbl.all fun e => decide (maxRune < e.1)) = true)
-    (kc : Int) (hk : kc < maxRune) : lookup kc tbl = none := by
+    (kc : Int) (hk : kc ≤ maxRune) : lookup kc tbl = none := by
   apply lookup_none_of_lt
   intro e he
   have := List.all_eq_true.mp h e he
   simp only [decide_eq_true_eq] at this
   omega
 
-/-- On a character key the table-driven part of the encoder only produces the plain character. -/
-theorem encodeTables_char (kc : Int) (xm : Nat) (pam ckm : Bool) (hk : kc < maxRune) (htab : kc ≠ KeyTab ∨ xm ≠ ModShift) :
-    encodeTables kc xm pam ckm = if xm = 0 then some (strOfRune kc) else none := by
+/-- On a key code that is not above the Unicode range the table-driven part of the encoder only
+    produces the event's text or the plain character (and nothing at `MaxRune` itself). -/
+theorem encodeTables_char' (kc : Int) (xm : Nat) (pam ckm : Bool) (text : Str) (hk : kc ≤ maxRune) (htab : kc ≠ KeyTab ∨ xm ≠ ModShift) :
+    encodeTables kc xm pam ckm text =
+      if xm = 0 ∧ kc < maxRune then some (if text ≠ [] then text else strOfRune kc) else none := by
   have h := term_tables_special
   simp only [Bool.and_eq_true] at h
   obtain ⟨⟨⟨⟨⟨h1, h2⟩, h3⟩, h4⟩, h5⟩, h6⟩ := h
@@ -58,14 +60,52 @@ theorem encodeTables_char (kc : Int) (xm : Nat) (pam ckm : Bool) (hk : kc < maxR
   have e4 := tbl_none numericKeymap h4 kc hk
   have e5 := tbl_none applicationKeymap h5 kc hk
   have e6 := tbl_none xtermKeymap h6 kc hk
+  have htab' : ¬(kc = KeyTab ∧ xm = ModShift) := by
+    rcases htab with h | h
+    · exact fun hh => h hh.1
+    · exact fun hh => h hh.2
   unfold encodeTables
   by_cases hx : xm = 0
-  · cases pam <;> cases ckm <;> simp [hx, e1, e2, e3, e4, e5, hk]
-  · have : ¬(kc = KeyTab ∧ xm = ModShift) := by
-      rcases htab with h | h
-      · exact fun hh => h hh.1
-      · exact fun hh => h hh.2
-    simp [hx, e6, this]
+  · by_cases hlt : kc < maxRune
+    · cases pam <;> cases ckm <;> simp [hx, e1, e2, e3, e4, e5, hlt]
+    · cases pam <;> cases ckm <;> simp [hx, e1, e2, e3, e4, e5, e6, hlt, ModShift] <;> omega
+  · simp [hx, e6, htab']
+
+/-- On a character key the table-driven part of the encoder only produces the event's text or the
+    plain character. -/
+theorem encodeTables_char (kc : Int) (xm : Nat) (pam ckm : Bool) (text : Str) (hk : kc < maxRune) (htab : kc ≠ KeyTab ∨ xm ≠ ModShift) :
+    encodeTables kc xm pam ckm text = if xm = 0 then some (if text ≠ [] then text else strOfRune kc) else none := by
+  rw [encodeTables_char' kc xm pam ckm text (by omega) htab]
+  simp [hk]
+
+/-- The event's text is only read for character keys (below `MaxRune`). -/
+theorem encodeTables_text (kc : Int) (xm : Nat) (pam ckm : Bool) (text : Str) (h : ¬ kc < maxRune) :
+    encodeTables kc xm pam ckm text = encodeTables kc xm pam ckm := by
+  unfold encodeTables
+  simp [h]
+
+theorem cursorKeys_special : ∀ e ∈ cursorKeys, ¬ e.1 < maxRune := by decide
+
+/-- Neither Alt nor Ctrl among the three xterm modifier bits. -/
+theorem mods_no_alt_ctrl : ∀ x : Fin 8, x.val &&& (altBit ||| ctrlBit) = 0 →
+    x.val &&& ModAlt = 0 ∧ x.val &&& ModCtrl = 0 ∧ (x.val = 0 ∨ x.val = ModShift) := by decide
+
+/-- The explicit Ctrl cases of the source only write valid runes. -/
+theorem ctrlCases_valid (kc : Int) (out : List Int) (h : lookup kc ctrlCases = some out) :
+    (out.map fun r => if validRune r = true then r else 65533) = out := by
+  have hall : (ctrlCases.all fun e => (e.2.map fun r => if validRune r = true then r else 65533) == e.2) = true := by decide
+  have hmem : ∀ (tbl : List (Int × List Int)), lookup kc tbl = some out → (kc, out) ∈ tbl := by
+    intro tbl
+    induction tbl with
+    | nil => intro h; simp [lookup] at h
+    | cons e rest ih =>
+      obtain ⟨k', v⟩ := e
+      intro h
+      by_cases hk : kc = k'
+      · simp [lookup, hk] at h; simp [hk, h]
+      · simp [lookup, hk] at h; simp [ih h]
+  have := List.all_eq_true.mp hall _ (hmem _ h)
+  simpa using this
 
 theorem and7 (m b : Nat) (hb : 7 &&& b = b) : m &&& b = (m &&& 7) &&& b := by
   rw [Nat.and_assoc, hb]
